@@ -117,6 +117,7 @@ func TestC15A_Donor(t *testing.T) {
 	names := sortedEntryNames(ents)
 	defer surveyDump(t)
 	feed := func(rt *rapid.T, input []byte, how, sig string) {
+		input = exact(input) // a submission arrives as an exactly sized buffer
 		for _, name := range names {
 			e := ents[name]
 			p := &probe{part: "donor", entry: name, input: input, note: how, noGoroutineCheck: true}
